@@ -441,6 +441,9 @@ func (t *tree) parseSwitch(token item, end itemType) ast.Node {
 		case end:
 			t.expect(itemRightDelim, ctx)
 			return &ast.SwitchNode{token.pos, switchValue, cases}
+		case itemComment: // a comment between cases is skipped
+		default:
+			t.unexpected(tok, "between switch cases")
 		}
 	}
 }
